@@ -113,6 +113,212 @@ def execute(case):
     return sim.run_history(case, check_event, at_end, pid=ID)
 
 
+# ---- part e2e: end-to-end equivalence with a from-scratch evaluation
+
+
+def _h(*parts):
+    import hashlib
+
+    return hashlib.sha1(repr(parts).encode()).hexdigest()[:12]
+
+
+def exec_e2e(case):
+    '''task-only engine with executable algorithms on a real shelve store:
+    every output value is a hash of (its name, the contents of the declared
+    input values as loaded from the store, the epoch of (algorithm, target)
+    when the value is epoch-sensitive).  Root re-runs with epoch bumps are
+    interleaved with real executions (worker.Context.run) in generated
+    order; at quiescence the latest stored content of every value must equal
+    the from-scratch evaluation under the final epochs.'''
+    import dawgie
+    import dawgie.util
+
+    from .. import store as storemod
+
+    out = core.Outcome()
+    spec = case['spec']
+    storemod.use_real_digest_binaries(False)
+    s = sim.Sim(spec, case['targets'], (), auto_workers=3, real_store=True)
+    revert = case.get('mode') == 'revert'
+
+    def ep(tag, tn):
+        e = epoch.get((tag, tn), 0)
+        # 'revert': a bumped value returns to a content it had before
+        return e % 2 if revert else e
+    epoch = {}
+    sens = case['sens']
+    runs = {}
+
+    def hook(alg, ds):
+        tag = f'{ds._task()}.{alg.name()}'
+        tn = ds._tn()
+        i = s.ref.tag.index(tag)
+        ins = []
+        for ref in alg.previous():
+            for vref in dawgie.util.as_vref([ref]):
+                up = (dawgie.util.task_name(vref.factory) + '.'
+                      + vref.impl.name())
+                val = vref.item[vref.feat]
+                ins.append((up, vref.item.name(), vref.feat,
+                            getattr(val, 'content', None)))
+        ins.sort()
+        n = 0
+        for sv in alg.state_vectors():
+            for vn in sv:
+                e = ep(tag, tn) if (sens[i] >> n) & 1 else 0
+                sv[vn].content = _h(tn, tag, sv.name(), vn, ins, e)
+                n += 1
+        runs[(tag, tn)] = runs.get((tag, tn), 0) + 1
+        ds.update()
+
+    dawgie._verif_run_hook = hook
+    try:
+        if s.missing:
+            out.fail('graph/algorithm-missing-from-task-tree', str(s.missing))
+            return out
+
+        def settle(order):
+            for _ in range(200):
+                if s.idle():
+                    return True
+                s.do(['tick'])
+                n = 0
+                while s.handed():
+                    s.do(['exec', order[n % len(order)] if order else 0])
+                    n += 1
+                for e in s.errors:
+                    if e[0] == 'exception':
+                        out.fail('farm/swallowed-exception', str(e))
+                        return False
+            return False
+
+        s.do(['reqall'])
+        if not settle([0]):
+            out.fail('e2e/first-run-does-not-quiesce', '')
+            return out
+        bumps = 0
+        for op in case['ops']:
+            if op[0] == 'bump':
+                tag = s.ref.tag[op[1] % len(s.ref.tag)]
+                tn = case['targets'][op[2] % len(case['targets'])]
+                epoch[(tag, tn)] = epoch.get((tag, tn), 0) + 1
+                s.do(['req', [op[1]], [case['targets'].index(tn)]])
+                bumps += 1
+            elif op[0] == 'tick':
+                s.do(['tick'])
+            elif op[0] == 'exec':
+                s.do(['exec', op[1]])
+            for e in s.errors:
+                if e[0] == 'exception':
+                    out.fail('farm/swallowed-exception', str(e))
+                    return out
+        if not settle(case['order']):
+            out.fail('e2e/does-not-quiesce',
+                     f'que={[j.tag for j in s.sched.que]}')
+            return out
+        if bumps >= 2:
+            out.nontrivial = True
+        # ---- latest stored content per (target, value)
+        from dawgie.db.shelve import util
+        from dawgie.db.shelve.state import DBI
+        import dawgie.db.util as dbu
+
+        ind = DBI().indices
+        latest = {}
+        for key, blob in zip(util.prime_keys(DBI().tables.prime),
+                             DBI().tables.prime.values()):
+            run, tid, tsk, aid, sid, vid = key
+            name = (util.dissect(ind.target[tid])[1],
+                    util.dissect(ind.task[tsk])[1] + '.'
+                    + util.dissect(ind.alg[aid])[1],
+                    util.dissect(ind.state[sid])[1],
+                    util.dissect(ind.value[vid])[1])
+            if name[2] == '__metric__':
+                continue
+            if name not in latest or latest[name][0] < run:
+                latest[name] = (run, blob)
+        # ---- from-scratch evaluation in topological (spec) order
+        for tn in case['targets']:
+            ref = {}
+            for i, a in enumerate(spec['algs']):
+                tag = s.ref.tag[i]
+                ins = sorted(
+                    (v.rsplit('.', 2)[0], v.split('.')[-2], v.split('.')[-1],
+                     ref[v]) for v in s.ref.inputs[tag])
+                n = 0
+                for sv in a['svs']:
+                    for v in sv['vals']:
+                        e = ep(tag, tn) if (sens[i] >> n) & 1 else 0
+                        ref[f'{tag}.{sv["name"]}.{v["name"]}'] = _h(
+                            tn, tag, sv['name'], v['name'], ins, e)
+                        n += 1
+            for full, want in sorted(ref.items()):
+                tag, svn, vn = full.rsplit('.', 2)
+                got = latest.get((tn, tag, svn, vn))
+                if got is None:
+                    out.fail('e2e/value-never-stored', f'{tn} {full}')
+                    break
+                content = dbu.decode(got[1]).content
+                if content != want:
+                    ups = sorted(s.ref.ancestors[tag])
+                    out.fail(
+                        'e2e/stored-differs-from-scratch-evaluation'
+                        + ('@content-seen-before' if revert else ''),
+                        f'{tn} {full}: latest stored (run {got[0]}) is '
+                        f'{content}, a from-scratch evaluation under the '
+                        f'final epochs gives {want}; upstream {ups}; runs '
+                        f'{runs.get((tag, tn))}; epochs '
+                        f'{ {k: v for k, v in epoch.items() if k[1] == tn} }',
+                    )
+                    break
+            if out.failures:
+                break
+        if any(len(s.ref.descendants[t]) >= 2 for t in s.ref.tag):
+            out.label('chain>=3')
+        out.label(f'bumps-{min(bumps, 4)}')
+        out.label('mode-revert' if revert else 'mode-unique')
+    finally:
+        dawgie._verif_run_hook = None
+        s.close()
+    return out
+
+
+def _e2e_case():
+    from hypothesis import strategies as st
+
+    from .. import engines
+
+    @st.composite
+    def build(draw):
+        spec = draw(engines.specs(max_algs=5, max_pkgs=2, kinds=('task',),
+                                  feedback=False, min_algs=2,
+                                  levels=('alg', 'sv', 'val', 'val')))
+        targets = draw(st.lists(st.sampled_from(sim.TARGET_POOL[:2]),
+                                unique=True, min_size=1, max_size=2))
+        n = len(spec['algs'])
+        op = st.one_of(
+            st.tuples(st.just('bump'), st.integers(0, n - 1),
+                      st.integers(0, 1)).map(list),
+            st.tuples(st.just('bump'), st.integers(0, 1),
+                      st.integers(0, 1)).map(list),
+            st.just(['tick']),
+            st.tuples(st.just('exec'), st.integers(0, 3)).map(list),
+            st.tuples(st.just('exec'), st.integers(0, 3)).map(list),
+        )
+        return {
+            'spec': spec,
+            'targets': targets,
+            'sens': draw(st.lists(st.sampled_from([0, 1, 2, 3, 5, 511, 511]),
+                                  min_size=n, max_size=n)),
+            'ops': draw(st.lists(op, min_size=2, max_size=20)),
+            'order': draw(st.lists(st.integers(0, 3), min_size=1,
+                                   max_size=5)),
+            'mode': draw(st.sampled_from(['unique'] * 5 + ['revert'])),
+        }
+
+    return build()
+
+
 def parts(tier):
     q = tier == 'quick'
     return [
@@ -124,4 +330,6 @@ def parts(tier):
             ),
             cases=1600 if q else 40000, batch=200,
         ),
+        core.Part('e2e', exec_e2e, strategy=_e2e_case,
+                  cases=240 if q else 6000, batch=40),
     ]
